@@ -341,6 +341,21 @@ def run_case(case, rec):
             continue
         rec.check("chi.after-annotation-equals-own-coordinates", chi is not None and geom.wrapdiff(chi, ref) <= TOL,
                   lambda: {"residue": r.full_name, "chi": chi, "reference-from-x-y-z": ref})
+    # residues whose base type the library could not name (one-letter code N / X / lower case, as unknown or
+    # modified components get): chi is still the glycosidic torsion of the base the atoms show
+    s3n = _g3.rebuild(s3, letter_fn=lambda ri, r: "NXn?"[ri % 4])
+    _cur["ctx"] = "chi, residues of unknown base type"
+    for r in s3n.residues:
+        ref, margin = _chi_reference(r)
+        if ref is None or margin < 1e-3 or "O4'" not in {a.name for a in r.atoms}:
+            continue
+        try:
+            chi = r.chi
+        except Exception as e:
+            rec.violation("chi.no-crash", {"residue": r.full_name, "exception": repr(e), "one-letter": r.one_letter_name}, mechanism=f"crash:{type(e).__name__}")
+            continue
+        rec.check("chi.unknown-base-type-equals-own-glycosidic-dihedral", chi is not None and not math.isnan(chi) and geom.wrapdiff(chi, ref) <= TOL,
+                  lambda: {"residue": r.full_name, "one-letter": r.one_letter_name, "chi": chi, "reference": ref})
     # annotator path (cis/trans and BPh use torsion_angle through its own alias)
     _cur["ctx"] = "annotator"
     try:
